@@ -2180,7 +2180,9 @@ class Series(ContainerOperand):
                 labels_prior[:key],
                 container._index.__iter__(), #type: ignore
                 labels_prior[key:],
-                ))
+                ),
+                name=self._index._name,
+                )
 
         return self.__class__(values,
                 index=index,
